@@ -171,6 +171,14 @@ def check_expand_tasks(A, R: Report, rid: str):
             ns_gates.append(n.id)
         if isinstance(a, ast.Call) and src(a.func).endswith('fullmatch') and a.args and _split_derived(A, fex, a.args[-1], 'last'):
             fm_gates.append(n.id)
+        # `re.fullmatch(...) is not None`
+        if isinstance(a, ast.Compare) and len(a.ops) == 1 and isinstance(a.ops[0], ast.IsNot) and isinstance(a.comparators[0], ast.Constant) and a.comparators[0].value is None \
+                and isinstance(a.left, ast.Call) and src(a.left.func).endswith('fullmatch') and a.left.args and _split_derived(A, fex, a.left.args[-1], 'last'):
+            fm_gates.append(n.id)
+    for n in cfg.nodes.values():
+        if n.kind == 'edge' and n.label == 'F' and isinstance(n.ast, ast.Compare) and len(n.ast.ops) == 1 and isinstance(n.ast.ops[0], ast.Is) and isinstance(n.ast.comparators[0], ast.Constant) \
+                and n.ast.comparators[0].value is None and isinstance(n.ast.left, ast.Call) and src(n.ast.left.func).endswith('fullmatch') and n.ast.left.args and _split_derived(A, fex, n.ast.left.args[-1], 'last'):
+            fm_gates.append(n.id)
     heads = [n.id for n in cfg.nodes.values() if n.kind == 'for' and n.ast in loops]
     app_nodes = [cn.id for a in appends for cn in cfg_nodes_for(cfg, a)]
     p_ns = cfg.find_path(heads, app_nodes, avoid=ns_gates)
